@@ -134,7 +134,7 @@ def _enumerate_cases(tier):
                     classes[n] = "invalid"
                     yield dict({"M": M, "diti": False, "prefill": ["B;"], "stream": "one-invalid", "method": method, "args": args, "classes": classes}, **extra)
             if method == "reagent_distribution":
-                for bad_excl in ([8], [25], [10, 0], [100, 12]):
+                for bad_excl in ([8], [25], [10, 0], [100, 12], [10.5], [12, 19.999], [23.25, 10]):
                     classes = {m: "valid" for m in names}
                     classes["exclude_wells"] = "invalid"
                     yield {"M": M, "diti": False, "prefill": [], "stream": "one-invalid", "method": method, "args": dict(base), "classes": classes, "range": extra["range"], "exclude": bad_excl}
@@ -642,7 +642,7 @@ def classes_from_values(case):
     if case["method"] == "reagent_distribution":
         rng = case["range"]
         ex = case.get("exclude") or []
-        out["exclude_wells"] = "valid" if all(rng["dst_start"] <= e <= rng["dst_end"] for e in ex) else "invalid"
+        out["exclude_wells"] = "valid" if all(isinstance(e, int) and rng["dst_start"] <= e <= rng["dst_end"] for e in ex) else "invalid"
     return out
 
 
